@@ -1,7 +1,7 @@
 (** C18 — Incremental statistics, circular queues, prequential error match definitions.
     Property theorems only; proofs are in Proofs/StatsR.v and Proofs/QueueRef.v. *)
 From Coq Require Import ZArith List Reals Bool.
-From FV Require Import NumSys RealA Py Sums Queue Stats QueueRef StatsR.
+From FV Require Import NumSys RealA Py Sums Queue Stats QueueRef StatsR AQueue AQueueR.
 Import ListNotations.
 
 (** Mean = arithmetic mean of all values (over R, any non-empty stream). *)
@@ -58,6 +58,25 @@ Theorem C18_accuracy_counts : forall (max_len : Z) (vs : list bool), (1 <= max_l
     aq_num_false a = Z.of_nat (count_occ bool_dec (lastn (Z.to_nat max_len) vs) false).
 Proof. exact accuracy_counts. Qed.
 Print Assumptions C18_accuracy_counts.
+
+(** ... and under ALL its operations: after ANY sequence of enqueue / dequeue / clear / keep-last calls (keep-last as
+    repaired, finding F48) the queue holds a bounded deque's contents and the two counters count them. *)
+Theorem C18_accuracy_counts_all_ops : forall (max_len : Z) (ops : list (qop bool)), (1 <= max_len)%Z ->
+  let a := fst (aq_ops aq_keep (aq_init max_len) ops) in
+  let d := fst (dq_run max_len [] ops) in
+  cq_abs (a_q a) = map Some d /\
+  aq_num_true a = Z.of_nat (count_occ bool_dec d true) /\
+  aq_num_false a = Z.of_nat (count_occ bool_dec d false) /\
+  aq_size a = Z.of_nat (length d).
+Proof. exact accuracy_counts_all_ops. Qed.
+Print Assumptions C18_accuracy_counts_all_ops.
+
+(** The clause was FALSE of the code before the repair: enqueue True, False, True, keep-last leaves one element with
+    num_true = 2 and num_false = -1 (the inherited method did not touch the counter). *)
+Theorem C18_accuracy_counts_before_repair_refuted :
+  let a := fst (aq_ops aq_keep_pre (aq_init 3) [Enq true; Enq false; Enq true; Keep]) in
+  aq_size a = 1%Z /\ aq_num_true a = 2%Z /\ aq_num_false a = (-1)%Z.
+Proof. exact accuracy_counts_pre_refuted. Qed.
 
 (** Non-vacuity: a wrapped queue of capacity 2 after 3 enqueues, a dequeue and a keep-last. *)
 Example C18_nonvacuous :
